@@ -90,6 +90,17 @@ def big_texts(corp, tier):
     return out
 
 
+def big_filler(rng, corp):
+    """A text whose rendering exceeds the usual 8 KiB stdout buffer several times."""
+    pool = [t for t in corp if 200 < len(t) < 20000] or ['filler paragraph\n\n']
+    parts, total = [], 0
+    while total < rng.choice([12000, 30000, 70000]):
+        t = pool[rng.randrange(len(pool))]
+        parts.append(t if t.endswith('\n') else t + '\n')
+        total += len(t)
+    return '\n'.join(parts)
+
+
 def gen_text(rng, corp):
     x = rng.random()
     if corp and x < 0.40:
@@ -134,7 +145,7 @@ def gen_text(rng, corp):
 
 LOCALES = ['utf-8', 'ascii', 'latin-1', 'cp1252']
 STDOUT_ENCODINGS = ['utf-8', 'ascii', 'latin-1', 'cp1252', 'utf-16']
-FAULT_KINDS = ['ENOENT', 'EACCES', 'EIO', 'BADUTF8', 'EPIPE', 'ENOSPC']
+FAULT_KINDS = ['ENOENT', 'EACCES', 'EIO', 'BADUTF8', 'EPIPE', 'ENOSPC', 'EAGAIN']
 
 
 def gen_scenario(rng, corp, with_fault):
@@ -165,14 +176,19 @@ def gen_scenario(rng, corp, with_fault):
         'stdout_encoding': STDOUT_ENCODINGS[rng.randrange(len(STDOUT_ENCODINGS))],
         'entry': rng.choice(['cli.main', '__main__']),
         'omit_r': rng.random() < 0.5,
+        'tty': rng.random() < 0.3,
     }
     fault = None
     if with_fault:
         kind = FAULT_KINDS[rng.randrange(len(FAULT_KINDS))]
         k = rng.randrange(n_files)
         fault = {'kind': kind, 'file': k, 'file_name': names[k], 'at': rng.randint(1, 6)}
-        if kind in ('EPIPE', 'ENOSPC'):
-            fault['at'] = rng.choice([0, 1, 2, 5, 17, 60, 200])
+        if kind in ('EPIPE', 'ENOSPC', 'EAGAIN'):
+            fault['at'] = rng.choice([0, 1, 2, 5, 17, 60, 200, 5000, 8192, 20000])
+        if kind == 'EAGAIN':
+            fault['times'] = rng.choice([1, 1, 2, 5])
+            if rng.random() < 0.5:
+                texts[0] = big_filler(rng, corp)      # the retry paths of buffered writers only show on outputs beyond the buffer
     return {'R': rid, 'texts': texts, 'names': names, 'knobs': knobs, 'fault': fault,
             'seed': rng.getrandbits(48)}
 
